@@ -209,6 +209,18 @@ theorem abs_get_some {cd : Codec KB VB K V} (L : cd.Laws) {m : AMap.T Bytes Byte
   rw [abs_get L hm hk, h]
   simp [L.decV_encV v hv]
 
+/-- get, read backwards: what the tuple bucket holds under a renamed key is the renamed decoding of bytes that ARE in
+    the byte bucket under the encoded key -/
+theorem abs_get_inv {cd : Codec KB VB K V} (L : cd.Laws) {m : AMap.T Bytes Bytes} (hm : Canon cd m) {k : KB}
+    (hk : cd.wfK k) {t : V} (h : AMap.get (absBucket cd m) (cd.nmK k) = some t) :
+    ∃ v, cd.wfV v ∧ cd.nmV v = t ∧ AMap.get m (cd.encK k) = some (cd.encV v) := by
+  cases hg : AMap.get m (cd.encK k) with
+  | none => rw [abs_get_none L hm hk hg] at h; cases h
+  | some bv =>
+    obtain ⟨v, hv, rfl, hg'⟩ := abs_get_some L hm hk hg
+    rw [hg'] at h
+    exact ⟨v, hv, Option.some.inj h, rfl⟩
+
 /-- **exists commutes** -/
 theorem abs_has {cd : Codec KB VB K V} (L : cd.Laws) {m : AMap.T Bytes Bytes} (hm : Canon cd m) {k : KB}
     (hk : cd.wfK k) : (AMap.get (absBucket cd m) (cd.nmK k)).isSome = (AMap.get m (cd.encK k)).isSome := by
